@@ -111,6 +111,11 @@ def responseGas : Nat := 10000000
 def tillTab : Nat := 120
 /-- key 0 = index of the persisting block (an input of the block, like the GAS rewards). -/
 def heightTab : Nat := 121
+/-- NEO: key 0 = the GAS generated per block as of the latest record (`setGasPerBlock` in block H writes the
+    record of index H+1, replacing an earlier one of the same block). -/
+def gasPBTab : Nat := 122
+/-- native_neo.go SetGASPerBlock: at most 10 GAS. -/
+def maxGasPerBlock : Nat := 1000000000
 /-- notary.go defaultDepositDeltaTill. -/
 def depositDelta : Nat := 5760
 
@@ -165,6 +170,8 @@ inductive NOp where
   /-- `Notary.lockDepositUntil(self, till)` / `Notary.withdraw(self, to)`. -/
   | lock (till : Nat)
   | withdraw (to : Nat)
+  /-- `NEO.setGasPerBlock(v)` (committee witness supplied). -/
+  | setGas (v : Nat)
   deriving Repr, DecidableEq
 
 inductive Tree where
@@ -391,6 +398,11 @@ def natStep (o : NOp) (self : Nat) (f : Flags) (view : Key → Option Nat) : Opt
   | .oracleFinish =>
     -- oracle.go finishDeferrable: "called from non-entry script" / no OracleResponse attribute: panics
     none
+  | .setGas v =>
+    -- native_neo.go setGASPerBlock: RequiredFlags States; value range check panics
+    if !(f.r && f.w) then none else
+    if v > maxGasPerBlock then none else
+    some ⟨[.set (gasPBTab, 0) v], [], none, false⟩
   | .lock till =>
     -- notary.go lockDepositUntil: RequiredFlags States; every failed check is `false`
     if !(f.r && f.w) then none else
